@@ -182,6 +182,15 @@ const TRACKED: [&str; 5] = ["client_encoding", "datestyle", "timezone", "standar
 
 /// C02 — a server connection is clean whenever it changes hands.
 pub fn c02_clean_handoff(cx: &mut Ctx) {
+    handoff_check(cx, false);
+    // the new owner's replies contain nothing but the replies to its own requests
+    relay_check(cx, "C02", true);
+}
+
+/// The session-state snapshot seen by the first statement of every new owner of a backend
+/// connection. `hostile_world`: some units carry no tag (hostile bytes) and only the
+/// well-behaved clients are judged as recipients.
+pub fn handoff_check(cx: &mut Ctx, hostile_world: bool) {
     let h = cx.h;
     let cache_on = cx.param_bool("cache_on");
     for (ci, conn) in h.backend_conns.iter().enumerate() {
@@ -191,6 +200,11 @@ pub fn c02_clean_handoff(cx: &mut Ctx) {
         let mut prev_owner: Option<u32> = None;
         let mut prev_stop_abnormal = false;
         for u in &conn.units {
+            if hostile_world && u.tags.is_empty() && !is_pooler_unit(u) {
+                // somebody's untagged bytes: the owner is unknown from here on
+                prev_owner = Some(u32::MAX);
+                continue;
+            }
             if u.tags.is_empty() || is_pooler_prepare_unit(u) {
                 continue;
             }
@@ -213,7 +227,7 @@ pub fn c02_clean_handoff(cx: &mut Ctx) {
             }
             let c = order[0];
             let last_c = *order.last().unwrap();
-            if is_attacker_tag(c) {
+            if is_attacker_tag(c) || (hostile_world && !h.clients.get(&c).map(is_data_client).unwrap_or(false)) {
                 prev_owner = Some(last_c);
                 continue;
             }
@@ -260,8 +274,6 @@ pub fn c02_clean_handoff(cx: &mut Ctx) {
         }
         let _ = prev_stop_abnormal;
     }
-    // the new owner's replies contain nothing but the replies to its own requests
-    relay_check(cx, "C02", true);
 }
 
 /// How did this client stop? ("normal" = it ended with COMMIT/ROLLBACK/Terminate at idle)
